@@ -14,6 +14,8 @@ From PowHsm Require Import Proofs.SrcEquivProtoM.
 From PowHsm Require Import Proofs.SrcEquivSignM.
 From PowHsm Require Import Proofs.SrcEquivSignProtoM.
 From PowHsm Require Import Proofs.SrcEquivStateM.
+From PowHsm Require Import Proofs.SrcEquivBlockM.
+From PowHsm Require Import Proofs.SrcEquivBlockProtoM.
 Open Scope N_scope.
 
 (* for every request and every device script, sign answers only codes docs/protocol.md lists for sign plus the generic ones (closed check on the generated tables vs the generated doc lists) *)
@@ -307,5 +309,54 @@ Theorem C04_source_blockchain_state_handler_is_model :
          srcm_HSM2ProtocolLedger___blockchain_state init self request w =
          mres rtuple_pv (op_blockchain_state kind req w).
 Proof. exact (@srcm_blockchain_state_handler_ok). Qed.
+
+(* TIE BY TRANSLATION: the result-translation dictionary of the advance handler as written in the source = the tabulated one, for EVERY integer *)
+Theorem C04_source_translate_advance_result_is_model :
+  forall (self : pv) (c : Z) (w : world),
+         srcm_HSM2ProtocolLedger___translate_advance_result self (VInt c) w =
+         (XOk (VInt (lookup_Z c TR_ADV TR_ADV_DEFAULT)), w).
+Proof. exact (@srcm_translate_advance_result_ok). Qed.
+
+(* update ancestor *)
+Theorem C04_source_translate_update_ancestor_result_is_model :
+  forall (self : pv) (c : Z) (w : world),
+         srcm_HSM2ProtocolLedger___translate_update_ancestor_result self (VInt c) w =
+         (XOk (VInt (lookup_Z c TR_UPD TR_UPD_DEFAULT)), w).
+Proof. exact (@srcm_translate_update_ancestor_result_ok). Qed.
+
+(* sign *)
+Theorem C04_source_translate_sign_error_is_model :
+  forall (self : pv) (c : Z) (w : world),
+         srcm_HSM2ProtocolLedger___translate_sign_error self (VInt c) w =
+         (XOk (VInt (lookup_Z c TR_SIGN_V5 TR_SIGN_V5_DEFAULT)), w).
+Proof. exact (@srcm_translate_sign_error_ok). Qed.
+
+(* _advance_blockchain as translated = model handler with its generated ladder and table, on every world *)
+Theorem C04_source_advance_handler_is_model :
+  forall (keccak : bytes -> bytes) (kind : dongle_kind) (init : pm pv)
+           (cm : string -> pv -> list pv -> pr pv) (fuel : nat) (self : pv) 
+           (req : obj) (blocks : list str) (brothers : list (list str)) (w : world),
+         init_ok kind init ->
+         block_oracles_ok keccak cm ->
+         keccak_wf keccak ->
+         jget (s "blocks") req = Some (jstrs blocks) ->
+         jget (s "brothers") req = Some (JArr (map jstrs brothers)) ->
+         fuel_ok kind fuel w ->
+         srcm_HSM2ProtocolLedger___advance_blockchain fuel cm init self (of_obj req) w =
+         mres rtuple_pv (op_advance keccak kind req w).
+Proof. exact (@srcm_advance_blockchain_handler_ok). Qed.
+
+(* _update_ancestor_block likewise *)
+Theorem C04_source_update_ancestor_handler_is_model :
+  forall (keccak : bytes -> bytes) (kind : dongle_kind) (init : pm pv)
+           (cm : string -> pv -> list pv -> pr pv) (fuel : nat) (self : pv) 
+           (req : obj) (blocks : list str) (w : world),
+         init_ok kind init ->
+         block_oracles_ok keccak cm ->
+         jget (s "blocks") req = Some (jstrs blocks) ->
+         fuel_ok kind fuel w ->
+         srcm_HSM2ProtocolLedger___update_ancestor_block fuel cm init self (of_obj req) w =
+         mres rtuple_pv (op_update_ancestor kind req w).
+Proof. exact (@srcm_update_ancestor_handler_ok). Qed.
 
 Example C04_nonvacuous : True. Proof. exact I. Qed. (* concrete runs closed by vm_compute in Proofs/C04.v: blockchainState on Status 0x6B87 / silent device / bad opcode / 0x6F00 answers -905; sign on ERR_SIGN_INVALID_PATH answers -103; ex_error_result_escapes_* exhibit the reconnection-bring-up observation recorded in DESIGN.md *)
